@@ -251,6 +251,32 @@ func runC04(c *ctx, r *Report) error {
 	}
 	r.Rule = fmt.Sprintf("all strings of length ≤ %d over the %d-symbol lexical alphabet %q (followed by }}, and also unterminated), all strings of length ≤ 3 over that alphabet plus %q, all sequences of ≤ %d tokens over %d token representatives joined by single spaces, %d random sentences of the grammar (depth ≤ 6) with random whitespace and random single-token mutations; LexExpression and ExprParser.Parse compared with the model (tokens, offsets, tree, error template + position); non-trivial = distinct sources that lex to ≥ 2 tokens or produce an error other than EOF", maxLen, len(alpha), alpha, extra, maxTok, len(tokReps), nRand)
 	var b batch
+	// AL.Props.C04: parse_iff (the model accepts a token list iff it derives from the documented grammar) and
+	// der_unambiguous / precedence (the tree is the grammar's unique derivation); AL.Props.C04Lex for the lexical forms. A verdict or tree
+	// difference on the same source is therefore a sentence on which the implementation departs from the grammar.
+	b.judge = func(cs Case) (string, string) {
+		iok, mok := strings.HasPrefix(cs.Impl, "ok"), strings.HasPrefix(cs.Model, "ok")
+		switch {
+		case cs.Op == "parse" && iok && !mok:
+			return "accepts-non-sentence", "the parser accepts text that is not a sentence of the documented grammar (the proved model rejects it: " + cs.Model + ")"
+		case cs.Op == "parse" && !iok && mok:
+			return "rejects-sentence", "the parser rejects a sentence of the documented grammar (" + cs.Impl + "); the proved model derives " + cs.Model
+		case cs.Op == "parse" && iok && mok:
+			return "structure-differs", "accepted text is analysed with a structure other than the grammar's (implementation " + cs.Impl + ", grammar " + cs.Model + ")"
+		case cs.Op == "lex" && iok != mok:
+			return "lexical-form-differs", "the lexer and the documented lexical forms disagree on whether this text is well formed (implementation " + cs.Impl + ", model " + cs.Model + ")"
+		}
+		return "", ""
+	}
+	b.srcOf = func(cs Case) string { return unhx(cs.Input["src_hex"]) }
+	b.rerun = func(_ Case, src string) (string, string, Case) {
+		cs := Case{Op: "parse", Input: map[string]string{"src_hex": hx(src), "src": strconv.Quote(src)}}
+		if strings.HasPrefix(src, "\ufeff") {
+			panic("excluded")
+		}
+		pc, _ := parseCanon(src)
+		return "parse " + hx(src), pc, cs
+	}
 	seen := map[string]bool{}
 	one := func(src string) {
 		// excluded from the tie: a leading BOM is skipped by text/scanner but stays inside the first token's
